@@ -1,6 +1,5 @@
 import PlzVerif.Lemmas.AspFreeze
-import PlzVerif.Model.AspFacts
-import PlzVerif.Generated.C16
+import PlzVerif.Model.AspGenerated
 /-!
 C17  Packages cannot observe or mutate each other's values.
 
@@ -20,14 +19,9 @@ optimised, frozen, cached — `interpreter.Subinclude`).
 namespace PlzVerif.Props.C17
 open PlzVerif.Asp PlzVerif.Generated
 
-def raw : RawFacts :=
-  { precTable := C16.precTable, precDefault := C16.precDefault, lazyOps := C16.lazyOps,
-    operators := C16.operators, intOps := C16.intOps,
-    listAddAppendsToReceiver := C16.listAddAppendsToReceiver, freezeWraps := C16.freezeWraps,
-    sortedArg := C16.sortedArg, reversedArg := C16.reversedArg,
-    constantFoldsLists := C16.constantFoldsLists, listSlice := C16.listSlice }
+abbrev raw : RawFacts := genRaw
 
-def F : Facts := factsOf raw
+abbrev F : Facts := genF
 
 /-- The extracted shapes are ones the model knows how to follow. -/
 def FactsOK : Bool :=
@@ -94,8 +88,13 @@ theorem C17_main_fails : ¬ Independent := by
 theorem C17_toplevel_partial (arr off len cap d : Nat) (idx v : Val) (st : St) :
     (indexAssign (.list true arr off len cap) idx v).run st = .error "list is immutable" ∧
     (indexAssign (.dict true d) idx v).run st = .error "dict is immutable" ∧
-    (∃ e, (asUnfrozenList "Argument seq" (.list true arr off len cap)).run st = .error e) :=
-  ⟨rfl, rfl, ⟨_, rfl⟩⟩
+    (∃ e, (asListFor F "sorted" "Argument seq" (.list true arr off len cap)).run st = .error e) ∧
+    (∃ e, (asListFor F "reversed" "irreversible type" (.list true arr off len cap)).run st = .error e) := by
+  have hs : F.frozenOK "sorted" = false := by decide
+  have hr : F.frozenOK "reversed" = false := by decide
+  refine ⟨rfl, rfl, ⟨"Argument seq must be a list, not list", ?_⟩, ⟨"irreversible type must be a list, not list", ?_⟩⟩ <;>
+    simp [asListFor, hs, hr, fail, StateT.run, throw, throwThe, MonadExceptOf.throw, StateT.lift, bind, Except.bind] <;>
+    decide
 
 /-- **The fix is sufficient for the freezing step**: for any facts record whose `Freeze` wraps the frozen copy,
     what `freeze` returns is frozen at every level, has no spare capacity, and the heap it started from is only
